@@ -48,7 +48,7 @@ class Link:
 
 
 class World:
-    def __init__(self, specs, handlers=None, now="2024-01-01T00:00:00"):
+    def __init__(self, specs, handlers=None, now="2024-01-01T00:00:00", guard_buffers=False):
         import indi.message as M
         from indi.routing import Router
         from indi.transport.server import tcp as server_tcp
@@ -70,10 +70,38 @@ class World:
             cls, defs = D.build_class(spec, handlers=handlers)
             self.devices.append(cls(router=self.router))
             self.defs.append(defs)
+        self._buffer_patch = None
+        if guard_buffers:
+            self._guard_buffers()
         self.links = []
         self.delivery = "whole"  # whole | byte | chunk:<n>
         self.cuts = None  # optional {pipe_name: [absolute cut positions]}
         self.chooser = None
+
+    def _guard_buffers(self, cpu_limit=20.0):
+        """run every Buffer.process under the CPU watchdog: a livelock inside it becomes a Hang exception"""
+        import signal
+
+        from indi.transport import buffer as B
+
+        from mc.core.bufgraph import Hang
+
+        orig = B.Buffer.process
+
+        def handler(signum, frame):
+            raise Hang("Buffer.process did not return within %ss of CPU time" % cpu_limit)
+
+        def guarded(buf, callback):
+            old = signal.signal(signal.SIGVTALRM, handler)
+            signal.setitimer(signal.ITIMER_VIRTUAL, cpu_limit)
+            try:
+                return orig(buf, callback)
+            finally:
+                signal.setitimer(signal.ITIMER_VIRTUAL, 0)
+                signal.signal(signal.SIGVTALRM, old)
+
+        B.Buffer.process = guarded
+        self._buffer_patch = (B.Buffer, orig)
 
     def new_link(self, name):
         l = Link(self, "%s%d" % (name, len(self.links)))
@@ -133,3 +161,5 @@ class World:
             self.loop.teardown()
         finally:
             self._M.now = self._saved_now
+            if self._buffer_patch:
+                self._buffer_patch[0].process = self._buffer_patch[1]
